@@ -3,6 +3,36 @@ import random
 import enginecheck as ec, engine, histmodel
 from props import engcommon
 LEVEL = 'proof'; TRUSTED = engcommon.TRUSTED_ENGINE; ASSUMPTIONS = engcommon.ASSUMPTIONS_ENGINE
+def probe_consumer_scanned_early(ctx, known):
+    """The refutation witness of Properties_C11scan.C11_scan_inline_refuted (`Stale`) on the REAL binary: a statement c reads y as a plain
+    source; the dyndep file of statement bout (present before the scan) declares y as an implicit OUTPUT of bout; the target lists c
+    before bout.  The scan visits c while y has no producer yet, finds it clean and never looks at it again after the load."""
+    import os, subprocess, tempfile, shutil, time
+    import vlib
+    ninja = os.path.join(vlib.build_impl('plain'), 'ninja')
+    d = tempfile.mkdtemp(prefix='verif-c11-', dir='/dev/shm'); n = 0
+    def run(*a): return subprocess.run([ninja, '-C', d] + list(a), stdout=subprocess.PIPE, stderr=subprocess.STDOUT, timeout=60)
+    try:
+        for inlined in (False, True):
+            for f in os.listdir(d): os.unlink(os.path.join(d, f))
+            open(d + '/build.ninja', 'w').write('rule cat\n  command = cat $in > $out\nrule gen\n  command = cat src > y && cat src > $out\n' +
+                                                ('build bout | y: gen src\n' if inlined else 'build bout: gen src || dd\n  dyndep = dd\n') + 'build c: cat y\nbuild top: cat c bout\n')
+            open(d + '/dd', 'w').write('ninja_dyndep_version = 1\nbuild bout | y: dyndep\n'); open(d + '/src', 'w').write('v1\n')
+            p1 = run('top'); n += 1; time.sleep(0.06)
+            open(d + '/src', 'w').write('v2\n'); time.sleep(0.06)
+            p2 = run('top'); n += 1
+            c = open(d + '/c').read() if os.path.exists(d + '/c') else None
+            p3 = run('-n', 'top'); n += 1
+            if p1.returncode != 0 or p2.returncode != 0: continue       # not this probe's concern
+            stale = c != 'v2\n'; again = b'no work to do' not in p3.stdout
+            if stale or again:
+                txt = ('%s manifest: after editing src, `ninja top` exits 0 with c = %r (a clean build gives \'v2\\n\')%s: c was scanned before the dyndep file of bout made y an output of bout'
+                       % ('INLINED' if inlined else 'dyndep', c, '; the next run has work to do' if again else ''))
+                if not inlined and 'dyndep-output-consumer-scanned-early' in known: ctx.known_finding('id=dyndep-output-consumer-scanned-early ' + txt)
+                else: ctx.violation('dyndep-consumer-early', 'real binary, see tools/props/c11.py probe_consumer_scanned_early\n' + open(d + '/build.ninja').read(), txt)
+    finally: shutil.rmtree(d, ignore_errors=True)
+    return n
+
 def run(ctx):
     rnd = random.Random(ctx.seed * 11 + 3)
     n = 700 if ctx.quick() else 6000
@@ -19,6 +49,7 @@ def run(ctx):
             pairs.append((a, a.transformed('C11_nr%d_inl' % i, engine.inline_dyndep)))
         inv = [h for h in (ec.gen_dyndep_invalid(rnd, 'C11_i%d' % i) for i in range(2 * n)) if h]
     known = {k.get('id') for k in ctx.known_list if k.get('property') == 'C11'}
+    if not ctx.replay: probe_consumer_scanned_early(ctx, known)
     hists = [x for p in pairs for x in p] + inv
     rc, tr, err, out = ec.run_hists(hists)
     for hh, crc, cerr in getattr(ec.run_hists, 'crashes', []):
